@@ -32,6 +32,15 @@ def make_op(d, prog: GProg, selection: Optional[dict]):
                 return await d()
             return op
         return lambda: d()
+    if selection.get("setup"):
+        kw = {}
+        if selection.get("T") is not None:
+            kw["target_nodes"] = [ids[i] for i in selection["T"]]
+        if prog.is_async:
+            async def op():
+                return await d.setup(**kw)
+            return op
+        return lambda: d.setup(**kw)
     kw = {}
     for key, name in (("T", "target_nodes"), ("X", "exclude_nodes"), ("R", "root_nodes")):
         if selection.get(key) is not None:
@@ -43,27 +52,58 @@ def make_op(d, prog: GProg, selection: Optional[dict]):
     return lambda: d.executor(**kw)()
 
 
-def run_prog(acc, prog: GProg, monitors: List[Callable], *, tie_budget: Optional[int], batch_order: bool = False,
-             selection: Optional[dict] = None, nontrivial: Optional[Callable] = None, case: Optional[dict] = None,
-             rebuild_each: bool = False, debug_on: bool = False, max_execs: Optional[int] = None) -> int:
-    """Explore every schedule of `prog`; returns the number of executions."""
+def selection_set(prog: GProg, selection: Optional[dict]):
+    """Reference set of participating node indices of a selection (None = all)."""
+    if selection is None:
+        return None
+    if selection.get("setup"):
+        T = selection.get("T")
+        if T is None:
+            T = [i for i, nd in enumerate(prog.nodes) if nd.setup]
+        sel, why = prog.closure(None, None, T)
+        return {i for i in sel if prog.nodes[i].setup}
+    sel, why = prog.closure(selection.get("R"), selection.get("X"), selection.get("T"))
+    if sel is None or sel == "either":
+        raise ValueError(f"selection {selection} is outside the quantifier: {why}")
+    return sel
+
+
+def run_case(acc, c: dict, monitors: List[Callable], nontrivial: Optional[Callable] = None, prog: Optional[GProg] = None,
+             max_execs: Optional[int] = None) -> int:
+    """Explore every schedule of the case `c` (see spaces.py for the fields); returns the number of executions."""
     from tawazi import cfg
 
-    case = case if case is not None else {"prog": prog.to_json(), "selection": selection}
+    from .spaces import prog_of
+
+    prog = prog if prog is not None else prog_of(c)
+    selection, tie_budget = c.get("sel"), c.get("ties")
+    warm, debug_on, batch_order = c.get("warm", 0), c.get("debug_on", False), c.get("batch", False)
     src = prog.source()
     lines = src_lines_of(prog, src)
-    sel = None
-    if selection is not None:
-        sel, why = prog.closure(selection.get("R"), selection.get("X"), selection.get("T"))
-        if sel is None or sel == "either":
-            raise ValueError(f"selection {selection} is outside the quantifier: {why}")
-    ref = prog.ref_run(sel, None, debug_on)
-    state = {"d": None, "ns": None}
+    sel = selection_set(prog, selection)
+    has_setup = any(nd.setup for nd in prog.nodes)
+    rebuild_each = has_setup or warm > 0
+    ref0 = None if warm else prog.ref_run(sel, None, debug_on)
+    state = {"d": None, "ns": None, "pre": None}
     cfg.RUN_DEBUG_NODES = debug_on
 
     def fresh():
-        state["d"], state["ns"] = build_gprog(prog)
+        state["d"], state["ns"] = build_gprog(prog, noloc=c.get("noloc", False))
+        state["pre"] = None
+        if warm:
+            pre = {}
+            for _ in range(warm):
+                r = H.run_controlled(make_op(state["d"], prog, None), is_async=prog.is_async)
+                if r.outcome != "return":
+                    raise H.HarnessError(f"warm-up call did not return: {r.outcome} {r.exc!r}")
+                for e in r.trace:
+                    if e[0] == "enter":
+                        i = idx.get(e[1])
+                        if i is not None and prog.nodes[i].setup and i not in pre:
+                            pre[i] = e[2]
+            state["pre"] = pre
 
+    idx = {s_: i for i, s_ in enumerate(prog.ids())}
     fresh()
     sc = StateCounter()
     nexec = 0
@@ -83,23 +123,25 @@ def run_prog(acc, prog: GProg, monitors: List[Callable], *, tie_budget: Optional
             nexec += 1
             acc.evaluations += 1
             acc.add_hits(res.hook_hits)
+            pre = state["pre"]
             if acc.selfcheck < SELFCHECK_PER_SHARD:
                 acc.selfcheck += 1
-                res2 = run_one(tuple(c for _, _, c in res.choices))
-                if jsonable(res2.trace) != jsonable(res.trace) or res2.outcome != res.outcome:
-                    raise H.HarnessError(f"non-deterministic replay of {case} prefix {prefix}:\n{jsonable(res.trace)}\nvs\n{jsonable(res2.trace)}")
-            view = View(prog, res, sel, None, debug_on, None, lines, state["ns"]["__src_file__"], ref=ref)
+                res2 = run_one(tuple(c_ for _, _, c_ in res.choices))
+                if H.canon_trace(res2.trace) != H.canon_trace(res.trace) or res2.outcome != res.outcome:
+                    raise H.HarnessError(f"non-deterministic replay of {c} prefix {prefix}:\n{jsonable(res.trace)}\nvs\n{jsonable(res2.trace)}")
+            view = View(prog, res, sel, pre, debug_on, None, lines, state["ns"]["__src_file__"], ref=ref0)
+            view.case = c
             sc.add(res)
-            acc.outcome((case.get("k"), tuple(e[:2] for e in res.trace if e[0] in ("enter", "exit")), res.outcome))
+            acc.outcome((tuple(e[:2] for e in res.trace if e[0] in ("enter", "exit")), res.outcome))
             if nontrivial is not None:
                 key = nontrivial(view)
                 if key is not None:
-                    acc.mark_nontrivial((repr(case), key))
+                    acc.mark_nontrivial((repr(c), key))
             for m in monitors:
                 for viol in m(view):
-                    acc.violation(viol, case, tuple(c for _, _, c in res.choices), res.trace, src)
+                    acc.violation(viol, c, tuple(c_ for _, _, c_ in res.choices), res.trace, src)
             if nexec == 1:
-                acc.sample({"case": case, "choices": [list(c) for c in res.choices], "outcome": res.outcome,
+                acc.sample({"case": c, "choices": [list(x) for x in res.choices], "outcome": res.outcome,
                             "trace": [e for e in res.trace][:40]})
     finally:
         cfg.RUN_DEBUG_NODES = False
@@ -110,19 +152,35 @@ def run_prog(acc, prog: GProg, monitors: List[Callable], *, tie_budget: Optional
     return nexec
 
 
-def replay_prog(prog: GProg, monitors: List[Callable], prefix, *, selection=None, batch_order=False, debug_on=False):
+def replay_case(c: dict, monitors: List[Callable], prefix, prog: Optional[GProg] = None):
+    """Re-run one recorded choice sequence of a case; returns (result, violations)."""
     from tawazi import cfg
 
+    from .spaces import prog_of
+
+    prog = prog if prog is not None else prog_of(c)
+    selection = c.get("sel")
+    warm, debug_on, batch_order = c.get("warm", 0), c.get("debug_on", False), c.get("batch", False)
     cfg.RUN_DEBUG_NODES = debug_on
     try:
-        d, ns = build_gprog(prog)
+        d, ns = build_gprog(prog, noloc=c.get("noloc", False))
         src = prog.source()
-        sel = None
-        if selection is not None:
-            sel, _ = prog.closure(selection.get("R"), selection.get("X"), selection.get("T"))
-        op = make_op(d, prog, selection)
-        res = H.run_controlled(op, prefix=tuple(prefix), is_async=prog.is_async, batch_order=batch_order)
-        view = View(prog, res, sel, None, debug_on, None, src_lines_of(prog, src), ns["__src_file__"])
+        sel = selection_set(prog, selection)
+        idx = {s_: i for i, s_ in enumerate(prog.ids())}
+        pre = None
+        if warm:
+            pre = {}
+            for _ in range(warm):
+                r = H.run_controlled(make_op(d, prog, None), is_async=prog.is_async)
+                for e in r.trace:
+                    if e[0] == "enter":
+                        i = idx.get(e[1])
+                        if i is not None and prog.nodes[i].setup and i not in pre:
+                            pre[i] = e[2]
+        H.Tok.FALSY = set(prog.falsy)
+        res = H.run_controlled(make_op(d, prog, selection), prefix=tuple(prefix), is_async=prog.is_async, batch_order=batch_order)
+        view = View(prog, res, sel, pre, debug_on, None, src_lines_of(prog, src), ns["__src_file__"])
+        view.case = c
         viols = [v for m in monitors for v in m(view)]
     finally:
         cfg.RUN_DEBUG_NODES = False
